@@ -85,6 +85,8 @@ fn gen_generate_valid_inner_value(maybe_spec: &Option<Specification>) -> TokenSt
 #[derive(Kinded)]
 enum RelevantSanitizer {
     Trim,
+    Lowercase,
+    Uppercase,
 }
 
 /// Subset of StringValidator, which is is possible to handle and is relevant for generating
@@ -98,8 +100,16 @@ enum RelevantValidator {
 /// Final specification to generate an arbitrary valid string
 struct Specification {
     has_trim: bool,
+    case: Option<CaseConversion>,
     min_len: ValueOrExpr<usize>,
     max_len: ValueOrExpr<usize>,
+}
+
+/// Case conversion applied by the sanitizers.
+#[derive(Clone, Copy)]
+enum CaseConversion {
+    Lower,
+    Upper,
 }
 
 /// If max length is not specified, then sum of min_len + this offset will be used.
@@ -119,6 +129,11 @@ fn build_specification(guard: &StringGuard) -> Result<Option<Specification>, syn
             let has_trim = relevant_sanitizers
                 .iter()
                 .any(|s| matches!(s, RelevantSanitizer::Trim));
+            let case = relevant_sanitizers.iter().find_map(|s| match s {
+                RelevantSanitizer::Lowercase => Some(CaseConversion::Lower),
+                RelevantSanitizer::Uppercase => Some(CaseConversion::Upper),
+                RelevantSanitizer::Trim => None,
+            });
             // `not_empty` and `len_char_min` both set a minimum: the effective one is the greatest.
             let min_len = relevant_validators
                 .iter()
@@ -144,6 +159,7 @@ fn build_specification(guard: &StringGuard) -> Result<Option<Specification>, syn
 
             let spec = Specification {
                 has_trim,
+                case,
                 min_len,
                 max_len,
             };
@@ -196,10 +212,11 @@ fn filter_sanitizers(sanitizers: &[StringSanitizer]) -> Result<Vec<RelevantSanit
             // Trim is relevant, because trimming a space can decrease string length and cause
             // violation of len_char_min validation.
             StringSanitizer::Trim => Some(Ok(RelevantSanitizer::Trim)),
-            // lowercase and uppercase sanitizers do not overlap with any of the validation rules,
-            // so we can ignore them
-            StringSanitizer::Lowercase => None,
-            StringSanitizer::Uppercase => None,
+            // lowercase and uppercase are relevant, because the case mapping of some characters
+            // consists of several characters (e.g. 'ß' -> "SS"), which can cause violation of
+            // len_char_max validation.
+            StringSanitizer::Lowercase => Some(Ok(RelevantSanitizer::Lowercase)),
+            StringSanitizer::Uppercase => Some(Ok(RelevantSanitizer::Uppercase)),
             StringSanitizer::With(_) => {
                 let msg = "It's not possible to derive `Arbitrary` trait for a type with `with` sanitizer.\nYou have to implement `Arbitrary` trait on you own.";
                 Some(Err(syn::Error::new(Span::call_site(), msg)))
@@ -211,9 +228,22 @@ fn filter_sanitizers(sanitizers: &[StringSanitizer]) -> Result<Vec<RelevantSanit
 fn gen_generate_valid_inner_value_with_validators(spec: &Specification) -> TokenStream {
     let Specification {
         has_trim,
+        case,
         min_len,
         max_len,
     } = spec;
+
+    // A character whose case mapping is longer than one character would change the length of
+    // the string when it gets sanitized, so it is replaced.
+    let keep_len_under_case_conversion = match case {
+        Some(CaseConversion::Lower) => {
+            quote!(let ch: char = if ch.to_lowercase().count() == 1 { ch } else { 'x' };)
+        }
+        Some(CaseConversion::Upper) => {
+            quote!(let ch: char = if ch.to_uppercase().count() == 1 { ch } else { 'x' };)
+        }
+        None => quote!(),
+    };
 
     if *has_trim {
         quote!(
@@ -223,6 +253,7 @@ fn gen_generate_valid_inner_value_with_validators(spec: &Specification) -> Token
             let mut output = String::with_capacity(target_len * 2);
             for _ in 0..target_len {
                 let ch: char = u.arbitrary()?;
+                #keep_len_under_case_conversion
                 output.push(ch);
             }
             // Make sure that the generated string matches the target_len
@@ -238,8 +269,9 @@ fn gen_generate_valid_inner_value_with_validators(spec: &Specification) -> Token
                         // Try luck one more time: trim the spaces and add another char.
                         // NOTE: This is inefficient, but it's not expected to happen often.
                         output = output.trim().to_string();
-                        let new_char: char = u.arbitrary()?;
-                        output.push(new_char);
+                        let ch: char = u.arbitrary()?;
+                        #keep_len_under_case_conversion
+                        output.push(ch);
                     }
                     core::cmp::Ordering::Greater => {
                         unreachable!(
@@ -259,6 +291,7 @@ fn gen_generate_valid_inner_value_with_validators(spec: &Specification) -> Token
             let mut output = String::with_capacity(target_len * 2);
             for _ in 0..target_len {
                 let ch: char = u.arbitrary()?;
+                #keep_len_under_case_conversion
                 output.push(ch);
             }
             // Return the output string
